@@ -83,6 +83,9 @@ func theSpec() apib.Spec {
 			{Method: "GET", Path: "/items/{id}", Produces: both, Security: &key, Params: []map[string]any{idp, qp, hp}},
 			{Method: "GET", Path: "/maybe/{id}", Produces: both, Security: &opt, Params: []map[string]any{idp, qp}},
 			{Method: "PUT", Path: "/open/{id}", Consumes: both, Produces: both, Security: &none, Params: []map[string]any{idp, bp}},
+			// routes without path parameter: nothing in the match is request specific except what the stages add
+			{Method: "POST", Path: "/plain", Consumes: both, Produces: both, Security: &none, Params: []map[string]any{qp, bp}},
+			{Method: "GET", Path: "/list", Produces: both, Security: &key, Params: []map[string]any{qp}},
 		},
 	}
 }
